@@ -189,7 +189,7 @@ def main():
     thorough = tier() == "thorough"
     n_total = 5000 if thorough else 400
     cases = [{"seed": seed(), "idx": i, "long": (i % 10 == 0)} for i in range(n_total)]
-    res = pmap("vf.checks.c02:run_case", cases, cpu_budget=600)
+    res = pmap("vf.checks.c02:run_case", cases, cpu_budget=120)
     for c, r_ in zip(cases, res):
         if r_["status"] != "ok":
             if r_["status"] in ("crash", "hang"):
